@@ -14,6 +14,12 @@ Theorem T12_1_soundness :
 Proof. exact match_sound. Qed.
 Print Assumptions T12_1_soundness.
 
+Theorem T12_1_soundness_env :
+  forall t v r, wf_tmpl t = true -> match_tmpl t v = Some r ->
+    exists rho, (forall n w, In (n, w) (snd r) -> rho n = Some w) /\ Matches rho t v.
+Proof. exact match_sound_ex. Qed.
+Print Assumptions T12_1_soundness_env.
+
 (* ... and soundness at full strength is refuted by a wildcard nested directly in a wildcard (the
    inner name is dropped, core.py:264): hand-built templates only. *)
 Theorem T12_1_soundness_refuted_unguarded :
